@@ -189,6 +189,35 @@ func checkRecovers(eng *Engine, id string) extraResult {
 		keys = append(keys, k)
 	}
 	sortStrings(keys)
+	// functions declared may_panic: every static caller must recover (or be may_panic itself)
+	for k, fc := range eng.contracts {
+		if strings.Contains(k, "@") || !fc.MayPanic || fc.Fn == nil {
+			continue
+		}
+		r.Obligations++
+		bad := ""
+		for _, caller := range eng.fnByKey {
+			for _, b := range caller.Blocks {
+				for _, ins := range b.Instrs {
+					c, ok := ins.(ssa.CallInstruction)
+					if !ok {
+						continue
+					}
+					if callee, ok := c.Common().Value.(*ssa.Function); ok && callee == fc.Fn {
+						cfc := eng.contracts[caller.Pkg.Pkg.Name()+"."+fnKey(caller)]
+						if !eng.hasRecover(caller) && (cfc == nil || !cfc.MayPanic) {
+							bad = "called from " + caller.String() + " which neither recovers nor is declared may_panic"
+						}
+					}
+				}
+			}
+		}
+		if bad != "" {
+			r.Failures = append(r.Failures, extraFailure{Name: k + "#may-panic-callers", Reason: "a function whose panics are tolerated has a caller that does not recover", Detail: bad})
+		} else {
+			r.Discharged++
+		}
+	}
 	for _, k := range keys {
 		fc := eng.contracts[k]
 		r.Obligations++
